@@ -9,7 +9,7 @@
    Count_Spec n E R = "R = E when n is None, n <= 0 or |E| <= n, and |R| = n otherwise". *)
 From Coq Require Import ZArith List Lia Bool Sorted.
 From PV Require Import Base.PySlice Base.NpSearch C17.Model C17.Spec C17.Proofs C17.Proofs2 C17.Proofs3
-                       C17.Proofs4 C17.Proofs5 C17.Proofs6 C17.Link.
+                       C17.Proofs4 C17.Proofs5 C17.Proofs6 C17.Link C17.Calls.
 From PV Require C07.Model.
 Import ListNotations.
 Open Scope Z_scope.
@@ -348,4 +348,68 @@ Example C17_ex_kept_densest :
   kept_dense_b [0; 10; 20] 7 [0; 10; 10; 20] = true /\
   kept_dense_b [0; 10; 20; 30; 40; 50] 2 [0; 10; 30; 40] = true /\
   kept_dense_b [0; 10; 20; 30; 40; 50] 2 [0; 10] = false.
+Proof. vm_compute. auto. Qed.
+
+(* ===== round 2: histories of calls on ONE SpikeSelector object (Calls.v) ===== *)
+
+(* __call__ assigns no attribute of the selector, so in the model the object after a call is the
+   object before it.  Consequence: in ANY sequence of calls on one selector (each with its own count,
+   request list, subset_chunks flag, subset and its own random draws [choose j]) the result of call
+   number j is the result of that very call on a freshly built selector (selector_call, the function
+   C17_select speaks about) -- it does not depend on the calls made before it.  The correspondence
+   observes exactly this on the code (case kind `seq`: 2-4 calls on one object, every call judged by
+   the clauses of a single call; seeded change C17-m5, a per-cluster cache keyed by the cluster id
+   only, breaks it). *)
+Theorem C17_calls_independent : forall (choose : nat -> nat -> list Z -> Z -> list Z)
+    (times clusters grid : list Z) (k : Z) (calls : list call) (rs : list (option (list Z)))
+    (j : nat) (c : call),
+  selector_calls choose times clusters grid k calls = Some rs ->
+  nth_error calls j = Some c ->
+  nth_error rs j = Some (selector_call (choose j) times clusters grid k (c_n c) (c_req c) (c_sc c) (c_sub c)).
+Proof. exact calls_independent. Qed.
+Print Assumptions C17_calls_independent.
+
+(* two histories that end with the same call (same random draws) end with the same answer *)
+Theorem C17_history_irrelevant : forall (choose : nat -> list Z -> Z -> list Z)
+    (times clusters grid : list Z) (k : Z) (pre pre' : list call) (c : call)
+    (rs rs' : list (option (list Z))),
+  selector_calls (fun _ => choose) times clusters grid k (pre ++ [c]) = Some rs ->
+  selector_calls (fun _ => choose) times clusters grid k (pre' ++ [c]) = Some rs' ->
+  last rs None = last rs' None.
+Proof. exact calls_history_irrelevant. Qed.
+Print Assumptions C17_history_irrelevant.
+
+(* hence EVERY call of EVERY history satisfies the whole statement of C17_select, with the chunk
+   restriction / subset / count of that call alone *)
+Theorem C17_calls_select : forall (choose : nat -> nat -> list Z -> Z -> list Z)
+    (times clusters grid : list Z) (k : Z) (calls : list call),
+  (forall q j ids m, NoDup ids -> 0 < m < zlen ids ->
+     NoDup (choose q j ids m) /\ zlen (choose q j ids m) = m /\ incl (choose q j ids m) ids) ->
+  length times = length clusters -> sortedZ grid -> 1 <= zlen grid -> 1 <= k ->
+  exists ivs rs,
+    chunks_kept grid k = Some (flat ivs) /\
+    Kept_Stride grid k (stride (zlen grid - 1) k) ivs /\
+    selector_calls choose times clusters grid k calls = Some rs /\
+    length rs = length calls /\
+    forall j c, nth_error calls j = Some c ->
+      exists r, nth_error rs j = Some (Some r) /\
+        StronglySorted Z.lt r /\
+        (forall i, In i r -> exists cl, In cl (c_req c) /\ Eligible times clusters ivs (c_sc c) (c_sub c) cl i) /\
+        (forall cl, In cl (c_req c) ->
+           Count_Spec (c_n c) (elig times clusters ivs (c_sc c) (c_sub c) cl) (filter (has_cluster clusters cl) r)).
+Proof. exact calls_select. Qed.
+Print Assumptions C17_calls_select.
+
+(* cluster 1 asked with the chunk restriction, then without it, then with it again, on one selector
+   (kept chunks [0,10) and [30,40)): its 5 spikes in kept chunks, then all 7, then the 5 again (with
+   the 2 of cluster 2) -- the answers of the three calls made alone.  (Under C17-m5 the second call
+   returns the 5 spikes of the first.) *)
+Example C17_ex_calls :
+  let times := [0; 1; 5; 9; 10; 10; 30; 35; 39; 40] in
+  let clusters := [1; 1; 2; 1; 1; 2; 1; 2; 1; 1] in
+  let grid := [0; 10; 20; 30; 40; 50] in
+  selector_calls (fun _ => choose0) times clusters grid 2
+    [mkcall None [1] true None; mkcall None [1] false None; mkcall None [1; 2] true None] =
+    Some [Some [0; 1; 3; 6; 8]; Some [0; 1; 3; 4; 6; 8; 9]; Some [0; 1; 2; 3; 6; 7; 8]] /\
+  selector_call choose0 times clusters grid 2 None [1] false None = Some [0; 1; 3; 4; 6; 8; 9].
 Proof. vm_compute. auto. Qed.
